@@ -1,7 +1,8 @@
 """C08 Compilation is deterministic.
 
 Level "other": (1) structural facts extracted with go/types from the compile
-path (every `range` over a map, every package-level variable, the fields of
+path, compared as SEMANTIC abstractions (literal source text only as
+advisories) (every `range` over a map, every package-level variable, the fields of
 the objects a Compiler holds, go/select/rand uses, and the two repairs: every
 code-generating entry point of Compiler resets the package table before it
 parses (/repo 1e863b8), Package.Init and Compiler.parse iterate
@@ -179,6 +180,73 @@ FUNC_BODIES = {
                              "{ aliases = append(aliases, alias) } sort.Strings(aliases) return aliases }",
 }
 
+# ------------------------------------------------------------------ semantic facts (obligations)
+# Every `range` over a map, abstracted: (package, which map: .Field / pkgvar:Name / local, type shape with
+# unexported names blanked, kind of loop, detail, reachable from the Compiler entry points / init functions by
+# the static call graph with `if false` ignored).  `$k`/`$v` = loop key / value, `$s` = the collecting slice,
+# `$m` = the ranged map, `$0`/`$1` = the comparator's parameters.  Each row names its Lean obligation.
+SEM_SITES = [
+    (["compiler/ast", ".Imports", "map[string]string", "collect-then-sort", "collect $k; sort.Strings", True],
+     "Package.SortedImports", "C08_sortedImports_perm_invariant (+ C08_init_perm_invariant, C08_parse_perm_invariant)"),
+    (["compiler/ssa", ".Constants", "map[string]ssa.ConstantInst", "collect-then-sort",
+      "collect $v.Const; sort.Slice less: strings.Compare($s[$0].Name, $s[$1].Name) == -1", True],
+     "Program.DefineConstants", "C08_defineConstants_perm_invariant, C08_sorted_perm_unique"),
+    (["compiler/ssa", ".Live", "ssa.Set", "calls", "fmt.Fprintf", False], "Program.PP (under `if false`)", "-"),
+    (["compiler/ssa", "local", "map[string]circuit.Stats", "collect-then-sort",
+      "collect $k; sort.Slice less: $m[$s[$0]].Cost() > $m[$s[$1]].Cost()", True],
+     "Program.Stream diagnostics table (stdout under params.Diagnostics only; ties in Cost() keep hand-over order)", "-"),
+    (["compiler/ssa", "local", "ssa.Set", "calls", "Set.Add", False], "Program.liveness (Peephole disabled)",
+     "C08_setCopy_perm_invariant shape"),
+    (["compiler/ssa", "local", "ssa.Set", "calls", "Set.Remove", False], "Set.Subtract", "C08_setSubtract_perm_invariant"),
+    (["compiler/ssa", "local", "ssa.Set", "collect-then-sort", "collect $v; sort.Slice less: $s[$0].ID < $s[$1].ID", False],
+     "Set.Array", "C08_sortByKey_perm_invariant"),
+    (["compiler/ssa", "local", "ssa.Set", "copy-by-key", "dst[$k] = $v", False], "Set.Copy", "C08_setCopy_perm_invariant"),
+    (["compiler/ssa", "pkgvar:\u00b7", "map[ssa.Operand]string", "find-key-by-value",
+      "first entry whose value equals the sought one yields its key", True], "peephole init", "C08_findKey_perm_invariant"),
+    (["compiler/ssa", "pkgvar:\u00b7", "map[ssa.Operand]string", "max", "len($v)", True], "instructions init",
+     "C08_maxLen_perm_invariant"),
+    (["compiler/utils", ".SymbolIDs", "map[string]int", "collect-then-sort", "collect $k; max len($k); sort.Strings", False],
+     "Params.SaveSymbolIDs (apps/garbled -sids)", "C08_sorted_perm_unique shape, C08_maxLen_perm_invariant"),
+    (["types", "pkgvar:Types", "map[string]types.Type", "find-key-by-value",
+      "first entry whose value equals the sought one yields its key", True], "Type.String", "C08_findKey_perm_invariant"),
+]
+SEM_KEYS = ("pkg", "what", "type", "kind", "detail", "reachable")
+
+# functions iterating the result of the function that holds the `.Imports` collect-then-sort site
+# (declared receiver type + exported name; unexported names blanked): Package.Init and Compiler.parse
+SORTED_IMPORT_USERS = ["Compiler.\u00b7", "Package.Init"]
+# Compiler methods that create a Codegen: fresh package table before any other use of the Compiler
+CODEGEN_ENTRIES_SEM = [
+    {"fresh_table_before_any_use": True, "func": "Compiler.CompileSSA"},
+    {"fresh_table_before_any_use": True, "func": "Compiler.Stream"},
+    {"fresh_table_before_any_use": True, "func": "Compiler.\u00b7"},
+]
+STRUCT_SHAPES = {
+    "ast.Func": {"exported": ["Annotations ast.Annotations", "Args []*ast.Variable", "Body ast.List", "End utils.Point",
+                              "Name string", "NamedReturn bool", "NumInstances int", "Return []*ast.Variable",
+                              "Returns []*ast.ReturnInfo", "This *ast.Variable"], "unexported_types": []},
+    "ast.Package": {"exported": ["Annotations ast.Annotations", "Bindings *ssa.Bindings", "Constants []*ast.ConstantDef",
+                                 "Functions map[string]*ast.Func", "Imports map[string]string", "Initialized bool",
+                                 "Name string", "Source string", "Types []*ast.TypeInfo", "Variables []*ast.VariableDef"],
+                    "unexported_types": []},
+    "compiler.Compiler": {"exported": [], "unexported_types": ["*utils.Params", "map[string]*ast.Package", "string"]},
+    "ssa.Generator": {"exported": ["Params *utils.Params"],
+                      "unexported_types": ["map[string]ssa.ConstantInst", "map[string]ssa.Value", "ssa.BlockID", "ssa.ValueID"]},
+}
+# package-level variables: exported ones by name, all by type shape (multiset per package)
+EXPORTED_PKG_VARS = {"Undefined", "Bool", "Byte", "Int32", "Nil", "Rune", "Types", "Uint32", "Uint64"}
+_U = "\u00b7"
+
+
+def _shape(t):
+    import re
+    return re.sub(r"\b([a-z][A-Za-z0-9_]*)\.([a-z_][A-Za-z0-9_]*)\b", lambda m: m.group(1) + "." + _U, t)
+
+
+def pkg_var_shapes():
+    return sorted([p, n if n in EXPORTED_PKG_VARS else _U, _shape(t)] for p, n, t in PKG_VARS)
+
+
 RAND_USES = [
     {"file": "compiler/circuits/allocator.go", "import": "unsafe"},     # unsafe.Sizeof for statistics
     {"file": "compiler/ssa/streamer.go", "import": "crypto/rand"},      # garbling key of the streaming mode (not compilation)
@@ -186,42 +254,55 @@ RAND_USES = [
 
 
 def check_facts(ctx, facts):
-    if not isinstance(facts, dict):
+    """Obligations compare SEMANTIC abstractions (robust against renames of unexported identifiers, moved
+    declarations, append <-> indexed fill ...); the source-text tables are advisories: their semantic content is
+    decided by the semantic facts, the cross-process / history oracle and the model correspondence."""
+    import os
+    if not isinstance(facts, dict) or not isinstance(facts.get("semantic"), dict):
         ctx.oblige("facts extracted with go/types from the compile path", False, str(facts)[:2000])
         return
+    sem = facts["semantic"]
     ctx.oblige("go/types loaded the compile-path packages without type errors", not facts.get("type_errors"),
                json.dumps(facts.get("type_errors")))
-    got = [{k: m.get(k) for k in SITE_KEYS} for m in (facts.get("map_ranges") or [])]
-    want = [{k: m[k] for k in SITE_KEYS} for m in SITES]
-
-    def key(m):
-        return (m["file"], m["func"], m["expr"])
-    gk, wk = {key(m): m for m in got}, {key(m): m for m in want}
-    new = sorted(k for k in gk if k not in wk)
-    gone = sorted(k for k in wk if k not in gk)
-    ctx.oblige("every `range` over a map in the compile path has a Lean obligation (no new site)", not new,
-               "map-range site(s) without obligation:\n" +
-               "\n".join(json.dumps([m for m in facts["map_ranges"] if key(m) == k][0]) for k in new))
-    ctx.oblige("every map-range site with an obligation still exists", not gone, "missing: %s" % gone)
-    ctx.oblige("number of map-range sites", len(got) == len(want), "got %d want %d" % (len(got), len(want)))
-    for k in sorted(wk):
-        if k in gk:
-            ctx.fact("map-range site %s %s `%s`: type, variables, loop body, following statement" % k, gk[k], wk[k])
-    ctx.coverage["map_range_sites"] = [{"site": "%s %s range %s" % (m["file"], m["func"], m["expr"]),
-                                        "classification": m["cls"], "lean": m["lean"]} for m in SITES]
-    ctx.fact("package-level variables of the compile path (state that could survive a compilation)",
-             [[v["pkg"], v["name"], v["type"]] for v in facts.get("pkg_vars") or []], [list(v) for v in PKG_VARS])
-    ctx.fact("fields of Compiler / ast.Package / ast.Func / ssa.Generator (what is cached between compilations)",
-             facts.get("structs"), STRUCTS)
-    ctx.fact("call sites of Peephole/liveness/Rule.Match/Set.Copy/Subtract/Array/SaveSymbolIDs (unreachable sites)",
-             facts.get("watched_calls") or [], WATCHED_CALLS)
-    ctx.fact("repair 6aa1568 present: Package.Init and Compiler.parse iterate pkg.SortedImports()",
-             facts.get("sorted_import_loops") or [], SORTED_IMPORT_LOOPS)
-    ctx.fact("repair 1e863b8 present: compile / CompileSSA / Stream call c.resetPackages() before parsing",
-             facts.get("codegen_entries") or [], CODEGEN_ENTRIES)
-    ctx.fact("bodies of Compiler.resetPackages and Package.SortedImports", facts.get("func_bodies") or {}, FUNC_BODIES)
+    got = [[m.get(k) for k in SEM_KEYS] for m in sem.get("sites") or []]
+    want = [row for row, _, _ in SEM_SITES]
+    new = [g for g in got if g not in want]
+    gone = [w for w in want if w not in got]
+    where = {json.dumps([m.get(k) for k in SEM_KEYS]): "%s %s:%s" % (m.get("func"), m.get("file"), m.get("line"))
+             for m in sem.get("sites") or []}
+    ctx.oblige("every `range` over a map in the compile path has a Lean obligation (no new or changed site)", not new,
+               "map-range site(s) without obligation:\n" + "\n".join("%s   at %s" % (json.dumps(g), where.get(json.dumps(g))) for g in new))
+    ctx.oblige("every map-range site with an obligation still exists with the same abstraction", not gone,
+               "missing: %s" % json.dumps(gone))
+    ctx.fact("map-range sites (which map, kind of loop, sort that follows, reachability) as a multiset",
+             sorted(json.dumps(g) for g in got), sorted(json.dumps(w) for w in want))
+    ctx.coverage["map_range_sites"] = [{"site": where.get(json.dumps(row), src), "abstraction": row, "where_in_design": src,
+                                        "lean": lean} for row, src, lean in SEM_SITES]
+    ctx.fact("repair 6aa1568 present: the functions iterating the sorted alias list are Package.Init and one Compiler method",
+             sem.get("sorted_import_users"), SORTED_IMPORT_USERS)
+    ctx.fact("repair 1e863b8 present: every Compiler method creating a Codegen installs a fresh package table before "
+             "it uses anything else of the Compiler", sem.get("codegen_entries_sem"), CODEGEN_ENTRIES_SEM)
+    ctx.fact("package-level variables of the compile path by type shape (state that could survive a compilation)",
+             sem.get("pkg_var_shapes"), pkg_var_shapes())
+    ctx.fact("fields of Compiler / ast.Package / ast.Func / ssa.Generator by shape (what a Compiler holds)",
+             sem.get("struct_shapes"), STRUCT_SHAPES)
     ctx.fact("no `go` / `select` statements in the compile path", facts.get("go_stmts") or [], [])
-    ctx.fact("math/rand, crypto/rand, unsafe, reflect, %p uses in the compile path", facts.get("rand_uses") or [], RAND_USES)
+    ctx.fact("math/rand, crypto/rand, unsafe, reflect, %p uses in the compile path (per package)",
+             sorted({(os.path.dirname(r["file"]), r["import"]) for r in facts.get("rand_uses") or []}),
+             sorted({(os.path.dirname(r["file"]), r["import"]) for r in RAND_USES}))
+    # ---- advisories: literal source text
+    ctx.advise("source text of the map-range sites (file, function, ranged expression, loop body, following statement)",
+               [{k: m.get(k) for k in SITE_KEYS} for m in (facts.get("map_ranges") or [])],
+               [{k: m[k] for k in SITE_KEYS} for m in SITES])
+    ctx.advise("names of the package-level variables", [[v["pkg"], v["name"], v["type"]] for v in facts.get("pkg_vars") or []],
+               [list(v) for v in PKG_VARS])
+    ctx.advise("field lists of Compiler / ast.Package / ast.Func / ssa.Generator as written", facts.get("structs"), STRUCTS)
+    ctx.advise("call sites of Peephole/liveness/Rule.Match/Set.Copy/Subtract/Array/SaveSymbolIDs by name",
+               facts.get("watched_calls") or [], WATCHED_CALLS)
+    ctx.advise("loops written as `range pkg.SortedImports()`", facts.get("sorted_import_loops") or [], SORTED_IMPORT_LOOPS)
+    ctx.advise("`c.resetPackages()` written before `c.parse(` in compile / CompileSSA / Stream",
+               facts.get("codegen_entries") or [], CODEGEN_ENTRIES)
+    ctx.advise("bodies of Compiler.resetPackages and Package.SortedImports as written", facts.get("func_bodies") or {}, FUNC_BODIES)
 
 
 def distinct_ops(ctx, ops):
@@ -259,6 +340,14 @@ def run(ctx):
                        meta.get("children_ok") == meta.get("child_processes"), json.dumps(meta.get("harness_log", ""))[:2000])
             ctx.correspond("DefineConstants order, Type.String, Package.Init blocks, cross-compilation state (seed %d)" % seed,
                            ops, out)
+            distinct_ops(ctx, ops)
+        if ctx.widen:
+            # an advisory drifted (the source was rewritten): one more oracle run on other generated programs
+            ops, out, meta = ctx.run_hx("oracle", 6, seed=ctx.seed + 500, extra_args=["-extra", "light"], tag="-widen",
+                                        timeout=600)
+            ctx.absorb_meta(meta, prefix="widen_")
+            progs += meta.get("programs", 0)
+            ctx.correspond("widened: model ops (seed %d)" % (ctx.seed + 500), ops, out)
             distinct_ops(ctx, ops)
         c = ctx.coverage.get("counters", {})
         ctx.coverage["programs"] = progs
